@@ -234,7 +234,13 @@ func runC11(tier string, seed uint64, rep *Report) {
 		}
 		// the local names every shape uses must not have become visible in the shared root scope
 		for _, local := range []string{"x", "y", "acc", "e", "e2", "n", "form", "a", "b", "c", "d", "f1", "f2", "q"} {
-			if o := w.EvalText(context.Background(), local); o.Err == nil {
+			o, answered := w.EvalTextWithin(local, 10*time.Second)
+			if !answered {
+				idx := rep.Add("P n", "V n | l 0 ", "batch "+fmt.Sprint(b), true, "batch:hung")
+				rep.Violate(idx, "after the batch a lookup in the shared environment does not return: a scope's lock was left taken", listing())
+				emergencyFlush(rep)
+			}
+			if o.Err == nil {
 				idx := rep.Add("P n", "V n | l 0 ", "batch "+fmt.Sprint(b), true)
 				rep.Violate(idx, fmt.Sprintf("after the batch the local name %q of some evaluation is bound in the shared root environment (to %s)", local, Show(o.Val)), listing())
 			}
